@@ -55,6 +55,38 @@ def impl_sdp(G, lab, q):
         return "err:" + type(e).__name__
 
 
+def _interleaved(G, lab, Q):
+    import itertools
+    import networkx as nx
+    from pywhy_graphs.algorithms import all_semi_directed_paths
+    gens, res = [], []
+    for s, T, tset, c in Q:
+        try:
+            target = {lab(t) for t in T} if tset else lab(T[0])
+            gens.append(iter(all_semi_directed_paths(G, lab(s), target, cutoff=c)))
+            res.append([])
+        except nx.NodeNotFound:
+            gens.append(None)
+            res.append("err:NodeNotFound")
+        except Exception as e:
+            gens.append(None)
+            res.append("err:" + type(e).__name__)
+    live = [i for i, g in enumerate(gens) if g is not None]
+    while live:
+        for i in list(live):
+            try:
+                res[i].append(next(gens[i]))
+            except StopIteration:
+                live.remove(i)
+            except nx.NodeNotFound:
+                res[i] = "err:NodeNotFound"
+                live.remove(i)
+            except Exception as e:
+                res[i] = "err:" + type(e).__name__
+                live.remove(i)
+    return [r if isinstance(r, str) else fmt_paths([[lab.inv(v) for v in p] for p in r]) for r in res]
+
+
 def impl_is(G, lab, p):
     from pywhy_graphs.algorithms import is_semi_directed_path
     try:
@@ -88,9 +120,15 @@ def impl(case):
                 impl_sdp(G, lab, q)
             for s_ in case.get("S", [])[:2]:
                 impl_pd(G, lab, s_)
-        C.warmup(G, _warm, layers=("circle", "directed", "bidirected", "undirected"))
+        C.warmup(G, _warm, layers=("circle", "directed", "bidirected", "undirected"), marks=True)
     before = C.snapshot(G)
-    out = {"sdp": [impl_sdp(G, lab, q) for q in case.get("Q", [])],
+    if C.warm_decide({"g": case["g"], "k": "interleave"}, 3) and len(case.get("Q", [])) >= 2:
+        # the enumeration is a generator: two of them alive at the same time (consumed alternately) are two
+        # independent enumerations
+        sdp = _interleaved(G, lab, case["Q"])
+    else:
+        sdp = [impl_sdp(G, lab, q) for q in case.get("Q", [])]
+    out = {"sdp": sdp,
            "is": "".join(impl_is(G, lab, p) for p in case.get("P", [])),
            "pd": [impl_pd(G, lab, s) for s in case.get("S", [])]}
     out["mutated"] = before != C.snapshot(G)
